@@ -55,6 +55,33 @@ def rule_generator(rep: Report, rid="C11.gen") -> None:
                 rep.ob(rid, "id_generator attributes are bound once, in constructors", f.name == "__init__", file=f.file, line=n.lineno, function=f.qualname,
                        expected="__init__", found=f.name)
     rep.floor("id counter write sites", sites, 2)
+    # every component that draws ids holds a generator: the one given, else a new one of its own
+    for cq in ("gherkin.pickles.compiler.Compiler", "gherkin.ast_builder.AstBuilder"):
+        I3 = new_interp()
+        fi3 = I3.facts.cls(cq).find_method("__init__")
+        if fi3 is None or len(fi3.params()) < 2:
+            raise AnalysisError(f"anchor vanished: {cq}.__init__(id_generator)")
+        tree3, rv3, st3 = I3.run(fi3.qualname)
+        rep.used_function(fi3.qualname)
+        s3, g3 = ("param", fi3.params()[0]), ("param", fi3.params()[1])
+        v = st3.ext.get((s3, "id_generator")) if st3 else None
+        ok = False
+        if v is not None:
+            dec = nf.decisions(v)
+            isn = ("cmp", "Is", g3, NONE)
+            ok = bool(dec) and all(set(a) <= {isn, g3} for a, _ in dec)
+            defaulted = False
+            for a, leaf in dec or []:
+                given = not a.get(isn, False) and a.get(g3, True)
+                if given:
+                    ok = ok and leaf == g3
+                else:
+                    o = I3.obj(leaf)
+                    ok = ok and isinstance(o, HInst) and o.cls.name == "IdGenerator" and o.origin[2] != 0
+                    defaulted = True
+            ok = ok and defaulted       # the 'none given' case must exist and yield a generator
+        rep.ob(rid, f"{cq.rsplit('.', 1)[1]} draws from the generator it is given, or from a new generator of its own when none is given", ok,
+               file=fi3.file, line=fi3.node.lineno, function=fi3.qualname, expected="self.id_generator = id_generator or IdGenerator()", found=fmt(v, I3) if v else "never bound")
     # default generators are created per instance, not shared through a mutable default
     rule_no_mutable_defaults(rep, rid)
 
@@ -280,6 +307,19 @@ def rule_formatter(rep: Report, rid="C18.fmt") -> None:
     ok = len(muts) == 1 and muts[0][0][1] == ("attr", selft, N.FMT_TOKENS) and muts[0][0][2] == "append" and muts[0][0][3] == (tok,) and not nf.guards_in_ctx(muts[0][1])
     rep.ob(rid, "the token listing records every token it is given, in order, unconditionally", ok, file=fi.file, line=fi.node.lineno, function=fi.qualname,
            expected="self._tokens.append(token)", found=[(n[2], [(fmt(a, I), p) for a, p in nf.guards_in_ctx(c)]) for n, c in muts])
+    for name in ("__init__", "reset"):
+        fi0 = cls.find_method(name)
+        ok = False
+        v = None
+        if fi0 is not None and fi0.cls is cls:
+            I0 = new_interp()
+            I0.types[("param", fi0.params()[0])] = cls
+            t0, r0, s0 = I0.run(fi0.qualname)
+            v = s0.ext.get((("param", fi0.params()[0]), N.FMT_TOKENS)) if s0 else None
+            o0 = I0.obj(v) if v else None
+            ok = isinstance(o0, HList) and not nf.list_content(I0, v, t0) and o0.origin[2] != 0
+        rep.ob(rid, f"the token listing starts empty after {name}()", ok, file=cls.module.rel, line=fi0.node.lineno if fi0 else None, function=f"{q}.{name}",
+               expected="self._tokens = []", found=fmt(v, I0) if v else "no fresh list bound")
     for name in ("start_rule", "end_rule"):
         fi2 = cls.find_method(name)
         I2 = new_interp()
